@@ -26,7 +26,7 @@
    the queue holds [cap] items) and the consumer under an arbitrary schedule;
    [process] is the consumer run over the whole sequence at once. *)
 From Coq Require Import ZArith List Bool Arith.
-From Tally Require Import Base.Obs Base.Search Gen.Params Model.Varint Model.Thrift Model.Buckets.
+From Tally Require Import Base.ObsCore Base.Search Gen.Params Model.Varint Model.Thrift Model.Buckets.
 Import ListNotations.
 Open Scope Z_scope.
 
